@@ -9,6 +9,7 @@ inductive Sym (T N : Type) where
 structure Rule (T N : Type) where
   lhs : N
   rhs : List (Sym T N)
+  deriving DecidableEq
 
 structure Grammar (T N : Type) where
   rules : List (Rule T N)
